@@ -215,11 +215,14 @@ def inline_call(ex, state, f, args, kwargs):
         ex.loop_ordinal, ex.loop_specs = 0, ex.reg.contracts[fi.addr].loops
     else:
         ex.loop_ordinal, ex.loop_specs = 0, ex.reg.inline_loops.get(fi.addr, {})
+    outer_pending = state.pending       # raises already queued by the caller's expression are not the callee's
+    state.pending = []
     try:
         outs = ex.exec_block(state, fi.node.body)
     finally:
         ex.call_depth -= 1
         ex.loop_ordinal, ex.loop_specs = saved_loop
+    state.pending = outer_pending
     rets = []
     for o in outs:
         if o.kind in ("return", "normal"):
@@ -294,6 +297,11 @@ def eval_clause(ex, state, contract, clause, env, old_state=None, as_value=False
         t = ex.truthy(state, v)
         side = state.pc[n:]
         return simp(t), side
+    except _Abort:
+        # the clause was evaluated in an infeasible state (every alternative definitely fails): vacuously true there
+        if as_value:
+            raise
+        return z3.BoolVal(True), []
     finally:
         ex.spec_mode -= 1
         ex.old_state = saved_old
@@ -481,6 +489,8 @@ def instantiate(ex, state, cls, args, kwargs):
     name = cls.name
     if name in models.CLASS_MODELS:
         return models.CLASS_MODELS[name](ex, state, args, kwargs)
+    if cls.info is None and name in models.BUILTINS:
+        return models.BUILTINS[name](ex, state, args, kwargs, None)     # int(x), str(x), bytes(x), type(x) ...
     if cls.info is None:
         if name in ("Exception",) or name in models.exc_names():
             return ex.mk_exc(state, name, args)
